@@ -130,6 +130,7 @@ var plans = []Plan{
 			{Test: "TestC06_EndToEnd", Shards: [2]int{6, 12}, Checks: [2]int{1000, 10000}, Timeout: [2]int{600, 3000}},
 			{Test: "TestC06_JWT", Shards: [2]int{4, 8}, Checks: [2]int{800, 6000}, Timeout: [2]int{600, 3000}},
 			{Test: "TestC06_Minting", Shards: [2]int{18, 18}, Timeout: [2]int{600, 3000}},
+			{Test: "TestC06_ConcurrentMinting", Shards: [2]int{2, 4}, Timeout: [2]int{600, 3000}},
 		},
 		Fuzz: []Fuzz{{Target: "FuzzC06HMACValidate", Time: "60s"}},
 	},
